@@ -16,6 +16,13 @@ def check(I, fr, lname, names, entry, fresh, head, outs):
     fn = lname[0]
     if fn.endswith("strict::graph::kahn"):
         kahn_step(I, fr, lname, names, entry, fresh, head, outs)
+    if fn.endswith("::is_convex_subgraph") and DEBUG:
+        for r, (place, v) in entry.items():
+            print("CONVEX entry", names.get(r, r), repr(v)[:200])
+        for (s, v, ctl) in outs:
+            print("CONVEX outcome", ctl)
+            for r, (place, v0) in entry.items():
+                print("   post", names.get(r, r), repr(I.read_place(s, place))[:700])
 
 
 def _ob(I, fr, what, goal, ok, st, undecided=False):
